@@ -7,7 +7,16 @@ From Coq Require Import Floats.
 From Srtla Require Import Base Constants FConstants Stall StallSel StallOps.
 Local Open Scope Z_scope.
 
-Definition feqb (a b : float) : bool := (a =? b)%float || (PrimFloat.is_nan a && PrimFloat.is_nan b).
+(** bit-level equality of two binary64 values (structural, on [Prim2SF]; NaNs are equal) *)
+Definition sf_eqb (a b : SpecFloat.spec_float) : bool :=
+  match a, b with
+  | SpecFloat.S754_zero s, SpecFloat.S754_zero t => Bool.eqb s t
+  | SpecFloat.S754_infinity s, SpecFloat.S754_infinity t => Bool.eqb s t
+  | SpecFloat.S754_nan, SpecFloat.S754_nan => true
+  | SpecFloat.S754_finite s m e, SpecFloat.S754_finite t n f => Bool.eqb s t && Pos.eqb m n && (e =? f)
+  | _, _ => false
+  end.
+Definition feqb (a b : float) : bool := sf_eqb (Prim2SF a) (Prim2SF b).
 
 Definition acct_eqb (a b : acct) : bool :=
   Bool.eqb (a_conn a) (a_conn b) && (a_window a =? a_window b) && (a_inflight a =? a_inflight b) &&
